@@ -396,6 +396,21 @@ func errClass(s string) string {
 	return s
 }
 
+// deliveryClass: does the source trickle (pieces of at most 7 bytes, so the
+// armor reader's bufio never holds a whole line ahead) or deliver in bulk?
+func deliveryClass(sched string) string {
+	switch sched {
+	case "1byte", "1byte+eof", "7", "bufio16over1byte", "bufio4096over7/counted":
+		return "trickled"
+	case "random", "random+eof", "halves":
+		return "mixed"
+	}
+	if strings.HasPrefix(sched, "random") {
+		return "mixed"
+	}
+	return "bulk"
+}
+
 type task struct {
 	f *dfile
 	s sched
@@ -407,7 +422,12 @@ func (m *monitor) decryptSweep(files []*dfile) {
 		r.Guard("baseline:"+files[i].name(), func() { m.baselines(files[i]) })
 	})
 	for _, f := range files {
-		r.Tab("files_by_class", f.fmtName()+"/"+f.class)
+		if f.marmor {
+			r.Tab("files_by_class", f.fmtName()+"/"+f.kclass)
+			r.Tab("malformed_armor_shapes", f.class)
+		} else {
+			r.Tab("files_by_class", f.fmtName()+"/"+f.class)
+		}
 		r.Tab("files_by_length", lenClass(f.length))
 	}
 	{
@@ -448,6 +468,11 @@ func (m *monitor) decryptSweep(files []*dfile) {
 			"schedules": len(ss), "read_buffers": len(readBufs), "runs_compared_all_layers": f.runs.Load(), "runs_differing_from_baseline": f.mismatches.Load()})
 	}
 	for _, f := range files {
+		if f.marmor && (strings.HasSuffix(f.class, "groups-of-46-bytes-each-padded") || strings.HasSuffix(f.class, "60-columns-then-4-empty-lines")) && f.bDearmor != nil {
+			r.SampleN("marmor-"+f.class, 1, map[string]any{"file": f.name(), "derivation": f.how, "text_head": string(mon.Trunc(f.data, 240)),
+				"baseline_dearmor": f.bDearmor.String(), "baseline_decrypt": f.bDecrypt.String(),
+				"runs_compared_all_layers": f.runs.Load(), "runs_differing_from_baseline": f.mismatches.Load()})
+		}
 		if f.class == "trailing-1" || f.class == "armor-badchar" || f.class == "trunc-boundary" {
 			r.SampleN("damaged-"+f.class, 1, map[string]any{"file": f.name(), "derivation": f.how, "baseline": f.bDecrypt.String(),
 				"runs_compared_all_layers": f.runs.Load(), "runs_differing_from_baseline": f.mismatches.Load()})
@@ -475,6 +500,9 @@ type group struct {
 
 func groupOf(layer string, f *dfile, bufio, buf int) groupKey {
 	g := groupKey{layer: layer, fm: f.fmtName(), class: f.class}
+	if f.kclass != "" {
+		g.class = f.kclass
+	}
 	if buf < 0 {
 		g.consume = "/consume=" + bufName(buf)
 	}
@@ -603,10 +631,18 @@ func (m *monitor) runTask(t task) {
 		return mon.NewRNG(r.Seed, fmt.Sprintf("c12-%s-%s-%s-%v", layer, f.name(), s.name, extra))
 	}
 	r.Tab("schedule", s.name)
+	bufs1, bufs2 := readBufs, readBufs
+	if f.marmor {
+		bufs1, bufs2 = marmorDecryptBufs, marmorBufs
+	}
 
 	// layer 1: age.Decrypt (+ armor.NewReader)
-	for _, b := range readBufs {
+	for _, b := range bufs1 {
 		src, cr := s.mk(f.data, rngFor("decrypt", b))
+		if f.marmor {
+			cr = nil
+			r.Count("malformed_armor_runs/age.Decrypt/"+deliveryClass(s.name), 1)
+		}
 		got, ah := m.runDecrypt(f, src, cr, s.own, b)
 		r.Eval(1)
 		r.Distinct(fmt.Sprintf("decrypt/%s/%s/%d", f.name(), s.name, b))
@@ -620,8 +656,17 @@ func (m *monitor) runTask(t task) {
 
 	// layer 2: armor.NewReader alone
 	if f.armored && f.bDearmor != nil {
-		for _, b := range readBufs {
+		for _, b := range bufs2 {
 			src, cr := s.mk(f.data, rngFor("dearmor", b))
+			if f.marmor {
+				cr = nil
+				size := "large-read"
+				if b > 0 && b < 48 {
+					size = "small-read"
+				}
+				r.Count("malformed_armor_runs/armor.NewReader/"+deliveryClass(s.name)+"/"+size, 1)
+				r.Tab("malformed_armor_read_size", bufName(b))
+			}
 			got, ah := m.runDearmor(f, src, cr, s.own, b)
 			r.Eval(1)
 			r.Distinct(fmt.Sprintf("dearmor/%s/%s/%d", f.name(), s.name, b))
